@@ -13,7 +13,9 @@ import (
 	"fmt"
 	"runtime"
 	"sort"
+	"strings"
 	"sync"
+	"sync/atomic"
 	"testing"
 	"time"
 )
@@ -40,8 +42,16 @@ func vcsBool(b bool) string {
 // vcsCollect waits for `expect` handler invocations (long watchdog: the handler goroutine is spawned
 // synchronously by the update, only its execution is asynchronous), then gives stray extra
 // invocations a short time to show up, and returns everything received.
+//
+// A handler that was never dispatched costs the whole watchdog; once that has happened a few times in a
+// run (so the code under test does lose notifications) the watchdog is shortened to keep the run finite.
+var vcsExpired atomic.Int32
+
 func vcsCollect(ch chan string, expect int, watchdog, settle time.Duration) []string {
 	out := []string{}
+	if vcsExpired.Load() >= 5 {
+		watchdog = 100 * time.Millisecond
+	}
 	deadline := time.After(watchdog)
 	for len(out) < expect {
 		select {
@@ -49,6 +59,7 @@ func vcsCollect(ch chan string, expect int, watchdog, settle time.Duration) []st
 			out = append(out, s)
 		case <-deadline:
 			expect = 0
+			vcsExpired.Add(1)
 		}
 	}
 	for i := 0; i < 4; i++ {
@@ -200,7 +211,7 @@ func (r *vcsRec) line(t int, side, phase string, closedSeen []bool, snaps []vkM)
 		"ev": "pair", "t": t, "side": side, "phase": phase,
 		"ices": vcsKeys(r.ices), "dtlss": vcsKeys(r.dtlss), "conns": conns, "closedSeen": closedSeen,
 		"snaps": snaps,
-		"sig":   fmt.Sprintf("pair(%s,%s)reports=%v", side, phase, vcsKeys(set)),
+		"sig":   fmt.Sprintf("pair(%s,%s)reports=[%s]", side, phase, strings.Join(vcsKeys(set), ",")),
 	}
 }
 
